@@ -9,7 +9,9 @@ RULE = ("case = (row shape in {unsigned, signed, ArrayLayout, StructLayout} of w
         "shorter than depth, 0..2 write ports (any domain, granularity None or a divisor), 0..3 read ports (comb or sync, any "
         "domain, any transparency subset of same-domain write ports), 1..2 clock domains of either edge, scheduler order, "
         "explicit step list over {port input writes, clock level changes alone or coincident, testbench row reads/writes}) "
-        "with out-of-range addresses, address collisions between ports, read-enable gating, glitches and inactive edges. "
+        "with out-of-range addresses, address collisions between ports, read-enable gating, glitches and inactive edges; in a "
+        "seeded fifth of the runs a user process patches a row and dies in the middle of a delta cycle (that of a clock event), "
+        "Simulator.reset() follows and the whole history is replayed from the declared initial contents. "
         "Non-trivial = at least one port write and one defined read comparison happened and a fault kind fired; "
         "distinct = distinct SHA-256 of the observation trace.")
 ASSUMPTIONS = [
@@ -19,11 +21,13 @@ ASSUMPTIONS = [
     "Domain resets (sync and async, at arbitrary instants, in their own step) are applied and must have no effect: the storage "
     "and the read ports have no reset, and writes/captures happen at clock edges only.",
     "Port inputs change only between edges.",
+    "Crash/restart: nothing of a run aborted by an exception (queued port writes, the dying process's own row write) survives "
+    "Simulator.reset(); every row is read back directly at the end of every run.",
 ]
 COMPONENTS = {"real": ["amaranth.lib.memory.Memory/ReadPort/WritePort", "amaranth.hdl._mem.MemoryInstance/MemoryData",
                        "amaranth.sim (_pyrtl memory processes, _PyMemoryState, _pyeval row access)", "amaranth.lib.data layouts"],
               "stub": ["PermSet scheduler seam", "clock driver", "array-of-rows model"]}
-EXPECTED_PROBES = ("coincide", "oob", "gate", "glitch-in", "inactive", "transparent_patch", "nontransparent_collision",
+EXPECTED_PROBES = ("crash", "coincide", "oob", "gate", "glitch-in", "inactive", "transparent_patch", "nontransparent_collision",
                    "two_port_conflict", "cross_domain_collision", "row_rd", "row_wr", "granular_write", "rtlil_compared_bits")
 
 DEPTHS = [0, 1, 2, 3, 5, 8, 9]
@@ -157,7 +161,9 @@ def gen_case(seed, tier):
             rlv[dn] ^= 1
             steps.append({"k": "rst", "l": {dn: rlv[dn]}})
     return {"config": config, "sched": {"mode": sc.choice(["seeded", "seeded", "reverse", "insertion"]),
-                                        "seed": sc.randrange(1 << 32)}, "steps": steps, "rtlil": sc.random() < 0.3}
+                                        "seed": sc.randrange(1 << 32)}, "steps": steps, "rtlil": sc.random() < 0.3,
+            "crash": ({"at": fl.randrange(max(1, len(steps))), "a": fl.randrange(max(1, depth)), "v": fl.randrange(1 << width)}
+                      if fl.random() < 0.2 else None)}
 
 
 def shape_width(shape):
@@ -233,6 +239,10 @@ def port_eff(config, dom):
     return cur, gates
 
 
+class CrashInjected(Exception):
+    pass
+
+
 def granule_bits(config, wp):
     """List of bit masks, one per enable bit."""
     sh = config["shape"]
@@ -263,7 +273,26 @@ def run_case(case):
     P, F = stats["probes"], stats["faults"]
     domains = [DomainSpec(d["name"], edge=d["edge"], async_reset=d.get("async", False)) for d in config["domains"]]
     act = {d["name"]: (1 if d["edge"] == "pos" else 0) for d in config["domains"]}
-    run = ManualRun(dut, domains, sched_mode=case["sched"]["mode"], sched_seed=case["sched"]["seed"])
+    crash = case.get("crash") if depth > 0 else None
+    armed = [bool(crash)]
+    procs, extra_lines = [], None
+    if crash:
+        # crash at an arbitrary point: a user process that, woken in the middle of a delta cycle (possibly the one of a clock
+        # edge, before or after the write ports queued their writes), patches a row and dies; Simulator.reset() follows
+        from amaranth.hdl import Signal
+        crash_sig = Signal(name="verif_crash")
+        extra_lines = {"crash": crash_sig}
+
+        async def crasher(ctx):
+            if not armed[0]:
+                return
+            await ctx.posedge(crash_sig)
+            ctx.set(Value.cast(mem.data[crash["a"] % depth]), 0)
+            ctx.set(Value.cast(mem.data[crash["a"] % depth]), crash["v"] & full if config["shape"]["kind"] != "signed" else 0)
+            raise CrashInjected()
+        procs = [crasher]
+    run = ManualRun(dut, domains, sched_mode=case["sched"]["mode"], sched_seed=case["sched"]["seed"], extra_lines=extra_lines,
+                    processes=procs)
     gmasks = [granule_bits(config, w) for w in config["wports"]]
 
     def raw(v):
@@ -355,6 +384,8 @@ def run_case(case):
             else:
                 changes = {}
                 active = set()
+                if armed[0] and idx >= crash["at"]:
+                    changes["crash"] = 1
                 for n, lvl in st["l"].items():
                     if n in lv and lv[n] != lvl:
                         lv[n] = lvl
@@ -435,8 +466,25 @@ def run_case(case):
                         rreg[i] = v
             obs = compare(idx)
             dig.add((k, sorted(lv.items()), obs))
+        # final state: every row, read directly
+        for a in range(depth):
+            got = raw(drv.get(Value.cast(mem.data[a])))
+            val, known = rows[a]
+            if (got ^ val) & known:
+                raise Violation("row_read", len(case["steps"]), {"addr": a, "got": got, "expected": val, "known_mask": known,
+                                                                 "when": "final state"})
 
-    run_guarded(res, lambda: run.run(body))
+    def go():
+        try:
+            run.run(body)
+        except CrashInjected:
+            # restart: Simulator.reset() on the simulator that died in the middle of a delta cycle, then the whole history again
+            # from the declared initial contents; nothing of the aborted run may survive
+            F["crash"] = F.get("crash", 0) + 1
+            armed[0] = False
+            dig.restart()
+            run.rerun(body)
+    run_guarded(res, go)
     stats["decisions"] = run.decisions
     if res.violation is None and res.harness_error is None and depth > 0 and case.get("restart", True):
         # restart: a second simulator over the very same design object must find the declared initial contents
